@@ -456,9 +456,71 @@ func envFsm() string {
 		die("envfsm: statesForDestroy not found in DestroyEnvironment")
 	}
 
+	// ---- 6. lock discipline of the locked sections: every read of the FSM state in
+	// TryTransition, ForceError and TeardownEnvironment lies after the transition mutex is taken
+	_, envf := parseFile("core/environment/environment.go")
+	_, manf := parseFile("core/environment/manager.go")
+	preLockReads := 0
+	for _, fn := range []struct {
+		f          *ast.File
+		recv, name string
+	}{{envf, "Environment", "TryTransition"}, {envf, "Environment", "ForceError"}, {manf, "Manager", "TeardownEnvironment"}} {
+		fd := findFunc(fn.f, fn.recv, fn.name)
+		if fd == nil || fd.Body == nil {
+			die("envfsm: %s.%s not found", fn.recv, fn.name)
+		}
+		lockPos := token.NoPos
+		// local names of the mutex: mu := &env.transitionMutex
+		alias := map[string]bool{"transitionMutex": true}
+		ast.Inspect(fd.Body, func(n ast.Node) bool {
+			as, ok := n.(*ast.AssignStmt)
+			if !ok || len(as.Lhs) != 1 || len(as.Rhs) != 1 {
+				return true
+			}
+			mentions := false
+			ast.Inspect(as.Rhs[0], func(m ast.Node) bool {
+				if se, ok := m.(*ast.SelectorExpr); ok && se.Sel.Name == "transitionMutex" {
+					mentions = true
+				}
+				return true
+			})
+			if id, ok := as.Lhs[0].(*ast.Ident); ok && mentions {
+				alias[id.Name] = true
+			}
+			return true
+		})
+		ast.Inspect(fd.Body, func(n ast.Node) bool {
+			c, ok := n.(*ast.CallExpr)
+			if !ok {
+				return true
+			}
+			if se, ok := c.Fun.(*ast.SelectorExpr); ok && (se.Sel.Name == "Lock" || se.Sel.Name == "TryLock") {
+				if alias[selName(se.X)] && (lockPos == token.NoPos || c.Pos() < lockPos) {
+					lockPos = c.Pos()
+				}
+			}
+			return true
+		})
+		if lockPos == token.NoPos {
+			die("envfsm: %s.%s does not take transitionMutex (Lock / TryLock on a selector ending in transitionMutex)", fn.recv, fn.name)
+		}
+		ast.Inspect(fd.Body, func(n ast.Node) bool {
+			c, ok := n.(*ast.CallExpr)
+			if !ok || c.Pos() >= lockPos {
+				return true
+			}
+			if se, ok := c.Fun.(*ast.SelectorExpr); ok {
+				if se.Sel.Name == "CurrentState" || ((se.Sel.Name == "Current" || se.Sel.Name == "Is" || se.Sel.Name == "Can") && selName(se.X) == "Sm") {
+					preLockReads++
+				}
+			}
+			return true
+		})
+	}
+
 	// ---- output
 	var b strings.Builder
-	b.WriteString("(* regenerated on every run by harness/cmd/translate (envfsm) from\n   core/environment/environment.go, transition*.go, core/server.go *)\n")
+	b.WriteString("(* regenerated on every run by harness/cmd/translate (envfsm) from\n   core/environment/environment.go, manager.go, transition*.go, core/server.go *)\n")
 	b.WriteString("From Verif Require Import Common EnvFsmTypes.\nOpen Scope N_scope.\n\n")
 	fmt.Fprintf(&b, "Definition env_initial : estate := %s.\n\n", stName(initial))
 	b.WriteString("(* fsm.Events of newEnvironment: (name, sources, destination), in source order *)\n")
@@ -514,5 +576,7 @@ func envFsm() string {
 		ss = append(ss, stName(s))
 	}
 	fmt.Fprintf(&b, "(* RpcServer.DestroyEnvironment *)\nDefinition env_states_for_destroy : list estate := %s.\n", coqList(ss))
+	b.WriteString("\n(* reads of the FSM state (CurrentState / Sm.Current / Sm.Is / Sm.Can) that precede the first\n   transitionMutex.Lock / TryLock in TryTransition, ForceError and TeardownEnvironment *)\n")
+	fmt.Fprintf(&b, "Definition env_prelock_state_reads : N := %d.\n", preLockReads)
 	return b.String()
 }
